@@ -3,7 +3,7 @@ import l1info_common as lc
 
 ID = "C11"
 PROPERTIES_V = ["theories/Properties/C11.v"]
-MAKE_TARGETS = ["theories/Properties/C11.vo", "theories/Model/L1InfoCases.vo"]
+MAKE_TARGETS = ["theories/Properties/C11.vo", "theories/Model/L1InfoCases.vo", "theories/Proofs/GenAgreeUpdatable.vo"]
 HARNESS = "l1info"
 HARNESS_ARGS = ["-prop", "c11"]
 CASES_IMPORTS = lc.IMPORTS
